@@ -163,10 +163,10 @@ def main(argv=None) -> int:
     if not args.no_evidence:
         write_evidence(prop_id, args.tier, seed, prog, results, errors, violations, known_hits, selftest, timer)
 
-    if errors:
-        return 2
     if violations:
         return 1
+    if errors:
+        return 2
     return 0
 
 
